@@ -10,6 +10,11 @@ Case kinds
   a Dalitz-plot limit: the indicator is 1 iff sigma2 lies between the PDG limits
   ``(E1*+E3*)^2 - (p1* +- p3*)^2`` for that sigma1 and the caller's ``outside_value``
   (nan | 0 | -1 | a symbol) otherwise.
+* ``boundary_exact``: an exactly collinear event with integer energies and momenta (massless
+  particles, particles at rest, Pythagorean triples; the third particle balances the momentum):
+  the point lies exactly on the Dalitz-plot boundary, the exact Kibble value is 0 and the event
+  is physical, so the indicator must be 1 -- on sympy Integers through ``doit`` and, because all
+  intermediate values are integers below 2^53, also in the lambdified double-precision function.
 * ``kallen`` / ``kallen_exact`` / ``kallen_symbolic``: total symmetry and the factorised
   form, in doubles, in exact rationals and symbolically.
 
@@ -32,14 +37,15 @@ from vp.ref import dalitz as dz
 
 PROPERTY = "C20"
 RULE = (
-    "Hypothesis draws the case kind (event | grid | kallen | kallen_exact), masses from {0, "
+    "Hypothesis draws the case kind (event | grid | boundary_exact | kallen | kallen_exact), masses from {0, "
     "PDG-like constants, floats}, energy release 10^[-3,1]; events as in C19 (pair-mass fraction, "
     "decay angle incl. 10^[-8,-1] from 0/pi); grid points by fractions of the bounding box incl. "
     "10^[-6,-1] from its edges and sigma2 either uniform or at 10^[-10,-2] m0^2 inside/outside a PDG "
     "limit; outside_value in {nan, 0, -1, symbol}; evaluation route lambdify | doit-on-floats. "
     "Non-trivial: event/grid point with pairwise distinct masses whose distance from the nearer "
     "limit is >= 1e-6 relative and whose Kibble value is above double resolution (inside and "
-    "outside classes both labelled); kallen cases with three distinct positive arguments. "
+    "outside classes both labelled); boundary_exact: integer collinear events (Kibble exactly 0) whose three "
+    "masses are not all equal; kallen cases with three distinct positive arguments. "
     "Distinct = distinct descriptor hash."
 )
 ASSUMPTIONS = [
@@ -127,9 +133,25 @@ _KALLEN_ARG = st.one_of(st.just(0.0), st.floats(0.0, 1e3), _LOG(-6.0, 3.0), st.s
 _RAT = st.tuples(st.integers(0, 60), st.integers(1, 12)).map(list)
 
 
+_TRIPLES = (  # (mass, |momentum|, energy), integers
+    (0, 1, 1), (0, 1, 1), (1, 0, 1), (3, 4, 5), (4, 3, 5), (5, 12, 13), (12, 5, 13), (8, 15, 17), (15, 8, 17),
+)
+_PART = st.tuples(st.integers(0, len(_TRIPLES) - 1), st.integers(1, 3), st.sampled_from([-1, 1])).map(list)
+
+
+def _boundary_strategy():
+    return st.fixed_dictionaries({
+        "kind": st.just("boundary_exact"), "parts": st.tuples(_PART, _PART).map(list),
+        "third": st.integers(0, 7), "rest_mass": st.integers(1, 6),
+        "perm": st.permutations([0, 1, 2]).map(list), "outside": _OUTSIDE,
+        "route": st.sampled_from(["lambdify", "doit"]),
+    })
+
+
 def strategy(tier):
     return st.one_of(
         _event_strategy(),
+        _boundary_strategy(),
         _grid_strategy(),
         _grid_strategy(),
         _grid_strategy(),
@@ -370,6 +392,84 @@ def _run_grid(desc) -> Result:
     return ok(nontrivial, labels, **info)
 
 
+def _int_kallen(x, y, z):
+    return x * x + y * y + z * z - 2 * x * y - 2 * y * z - 2 * z * x
+
+
+def _boundary_event(desc):
+    """Integer (m, p, E) of three collinear particles with p1+p2+p3 = 0, or None (all at rest)."""
+    parts = []
+    for idx, scale, sign in desc["parts"]:
+        m, p, e = (scale * v for v in _TRIPLES[idx])
+        parts.append((m, sign * p, e))
+    big_p = -(parts[0][1] + parts[1][1])
+    if big_p == 0:
+        k = int(desc["rest_mass"])
+        parts.append((k, 0, k))
+    else:
+        sq = big_p * big_p
+        options = [(0, abs(big_p))]  # massless
+        for d1 in range(1, abs(big_p)):
+            if sq % d1 == 0 and (sq // d1 - d1) % 2 == 0:
+                d2 = sq // d1
+                options.append(((d2 - d1) // 2, (d1 + d2) // 2))
+        m, e = options[int(desc["third"]) % len(options)]
+        parts.append((m, big_p, e))
+    if all(p == 0 for _, p, _ in parts):
+        return None
+    return [parts[i] for i in desc["perm"]]
+
+
+def _run_boundary_exact(desc) -> Result:
+    from ampform.kinematics.phasespace import Kibble, compute_third_mandelstam, is_within_phasespace  # noqa: PLC0415
+
+    parts = _boundary_event(desc)
+    if parts is None:
+        return ok(False, ["boundary_exact", "degenerate:all_at_rest"])
+    m = [q[0] for q in parts]
+    m0 = sum(q[2] for q in parts)
+    if not m0 > sum(m):  # pragma: no cover - a moving particle has E > m
+        raise RuntimeError(f"boundary construction without energy release: {parts}")
+
+    def pair(i, j):
+        return (parts[i][2] + parts[j][2]) ** 2 - (parts[i][1] + parts[j][1]) ** 2
+
+    s1, s2, s3 = pair(1, 2), pair(0, 2), pair(0, 1)
+    lam = [_int_kallen(s, mi * mi, m0 * m0) for s, mi in zip((s1, s2, s3), m)]
+    if _int_kallen(*lam) != 0 or s1 + s2 + s3 != m0 * m0 + sum(v * v for v in m):  # pragma: no cover
+        raise RuntimeError(f"reference construction is not on the boundary: {parts}")
+    n_rest = sum(1 for q in parts if q[1] == 0)
+    labels = ["boundary_exact", f"route:{desc['route']}", f"outside_value:{desc['outside']}", f"at_rest:{n_rest}",
+              f"massless:{sum(1 for v in m if v == 0)}",
+              {1: "masses:all_equal", 2: "masses:two_equal", 3: "masses:distinct"}[len(set(m))]]
+    if min(s1, s2, s3) == 0:
+        labels.append("massless_pair_with_zero_invariant_mass")
+    nontrivial = len(set(m)) >= 2
+    info = {"sigma1": s1, "sigma2": s2, "sigma3": s3, "m0": m0, "m": m}
+    ints = [sp.Integer(v) for v in (s1, s2, m0, *m)]
+    got3 = under_test("compute_third_mandelstam(integers)", compute_third_mandelstam, *ints)
+    if got3 != s3:
+        return violation("third_mandelstam_differs_from_invariant_mass", nontrivial, labels, route="integers",
+                         got=str(got3), want=s3, **info)
+    kib = under_test("Kibble(integers).doit", lambda: Kibble(*[sp.Integer(v) for v in (s1, s2, s3, m0, *m)]).doit())
+    if not kib <= 0:
+        return violation("kibble_positive_for_physical_event", nontrivial, labels, kibble=str(kib), tolerance=0, **info)
+    route = desc["route"]
+    if route == "lambdify" and m0 > 40:
+        route = "doit"  # integers no longer exact in doubles
+        labels.append("too_large_for_exact_doubles")
+    if route == "doit":
+        out = _outside_sympy(desc["outside"])
+        expr = under_test("is_within_phasespace(integers)", is_within_phasespace, *ints, outside_value=out)
+        val = under_test("is_within_phasespace(integers).doit", expr.doit)
+        got = 1.0 if val == 1 else str(val)
+    else:
+        got = _indicator_value("lambdify", desc["outside"], float(s1), float(s2), float(m0), [float(v) for v in m])
+    if not _matches(got, 1.0):
+        return violation("indicator_not_1_inside", nontrivial, labels, want=1.0, got=got, on_boundary=True, **info)
+    return ok(nontrivial, labels, **info)
+
+
 def _run_raw(desc) -> Result:
     m = [float(v) for v in desc["m"]]
     want_inside = (desc["s1"], desc["s2"]) != (0.0, 3.0)
@@ -452,6 +552,8 @@ def run_case(desc) -> Result:
         return _run_event(desc)
     if kind == "grid":
         return _run_grid(desc)
+    if kind == "boundary_exact":
+        return _run_boundary_exact(desc)
     if kind == "raw":
         return _run_raw(desc)
     if kind == "kallen":
